@@ -138,9 +138,9 @@ Section Stmt.
       do (al, ts) <- parse_table_alias ts;
       Val (GTable name al None lateral, ts).
 
-  (* one JOIN clause of the loop in parseSelectStatement; [base] = the FROM item the first join is attached to,
-     [k] = number of joins read so far *)
-  Definition parse_join (d : nat) (base : gtable) (k : nat) (ts : list token) : sres gjoin :=
+  (* the join kind in front of JOIN: [NATURAL] [LEFT|RIGHT|FULL [OUTER] | INNER | CROSS]; returns
+     (natural, type word, cursor at the token that must be JOIN) *)
+  Definition parse_join_kind (ts : list token) : bool * string * list token :=
     let natural := isT (cur ts) TyNatural in
     let ts := if natural then advance ts else ts in
     let skip_outer (ts : list token) := if isT (cur ts) TyOuter then advance ts else ts in
@@ -151,6 +151,26 @@ Section Stmt.
       else if isT (cur ts) TyInner then ("INNER", advance ts)
       else if isT (cur ts) TyCross then ("CROSS", advance ts)
       else ("INNER", ts) in
+    (natural, jt, ts).
+
+  (* ON expr | USING ( columns ) | nothing for CROSS / NATURAL joins *)
+  Definition parse_join_cond (d : nat) (natural : bool) (jtype : string) (ts : list token) : outcome (option gexpr * list token) :=
+    if negb (String.eqb jtype "CROSS") && negb natural then
+      if isT (cur ts) TyOn then
+        do (c, ts1) <- rewrap EInvalid (pe d (advance ts)); Val (Some c, ts1)
+      else if isT (cur ts) TyUsing then
+        let ts := advance ts in
+        if negb (isT (cur ts) TyLParen) then Err EExpected
+        else
+          do (cols, ts1) <- paren_ident_list ts;
+          Val (Some (match cols with [c] => GIdent c "" | _ => GList (map (fun c => GIdent c "") cols) end), ts1)
+      else Err EExpected
+    else Val (None, ts).
+
+  (* one JOIN clause of the loop in parseSelectStatement; [base] = the FROM item the first join is attached to,
+     [k] = number of joins read so far *)
+  Definition parse_join (d : nat) (base : gtable) (k : nat) (ts : list token) : sres gjoin :=
+    let '(natural, jt, ts) := parse_join_kind ts in
     let jtype := if natural then ("NATURAL " ++ jt)%string else jt in
     if negb (isT (cur ts) TyJoin) then Err EExpected
     else
@@ -164,18 +184,7 @@ Section Stmt.
         do (name, ts) <- rewrap EExpected (parse_qualified_name ts);
         do (al, ts) <- parse_table_alias ts;
         let right := GTable name al None lateral in
-        do (cond, ts) <-
-          (if negb (String.eqb jtype "CROSS") && negb natural then
-             if isT (cur ts) TyOn then
-               do (c, ts1) <- rewrap EInvalid (pe d (advance ts)); Val (Some c, ts1)
-             else if isT (cur ts) TyUsing then
-               let ts := advance ts in
-               if negb (isT (cur ts) TyLParen) then Err EExpected
-               else
-                 do (cols, ts1) <- paren_ident_list ts;
-                 Val (Some (match cols with [c] => GIdent c "" | _ => GList (map (fun c => GIdent c "") cols) end), ts1)
-             else Err EExpected
-           else Val (None, ts));
+        do (cond, ts) <- parse_join_cond d natural jtype ts;
         Val (GJoin jtype (join_left base k) right cond, ts).
 
   Fixpoint joins_loop (n : nat) (d : nat) (base : gtable) (k : nat) (acc : list gjoin) (ts : list token)
@@ -225,7 +234,7 @@ Section Stmt.
     match n with
     | 0 => OutOfFuel
     | S n' =>
-        if isT (cur ts) TyRollup || isT (cur ts) TyCube || String.eqb (lit (cur ts)) "GROUPING SETS"
+        if isT (cur ts) TyRollup || isT (cur ts) TyCube || ((isT (cur ts) TyKeyword || isT (cur ts) TyGroupingSets) && String.eqb (lit (cur ts)) "GROUPING SETS")
            || (isT (cur ts) TyGrouping && eqfold (lit (peek ts)) "SETS") then Unmodelled
         else
           do (e, ts1) <- pe d ts;
@@ -245,85 +254,100 @@ Section Stmt.
         if isT (cur ts3) TyComma then order_list n' d acc (advance ts3) else Val (acc, ts3)
     end.
 
+  (* parseSelectStatement, clause by clause (the Go function is one body; the pieces are named for the proofs) *)
+  Definition ps_distinct (d : nat) (ts : list token) : outcome ((bool * list gexpr) * list token) :=
+    if isT (cur ts) TyDistinct then
+      let ts := advance ts in
+      if isT (cur ts) TyOn then
+        let ts := advance ts in
+        if negb (isT (cur ts) TyLParen) then Err EExpected
+        else
+          let ts := advance ts in
+          do (l, ts1) <- expr_list (S (length ts)) d [] ts;
+          if negb (isT (cur ts1) TyRParen) then Err EExpected else Val ((true, l), advance ts1)
+      else Val ((true, []), ts)
+    else if isT (cur ts) TyAll then Val ((false, []), advance ts)
+    else Val ((false, []), ts).
+
+  Definition ps_from (d : nat) (ts : list token) : outcome ((string * list gtable * list gjoin) * list token) :=
+    if isT (cur ts) TyFrom then
+      let ts := advance ts in
+      if isT (cur ts) TyEOF || isT (cur ts) TySemicolon then Err EExpected
+      else
+        do (t0, ts1) <- parse_from_table_ref ts;
+        do (tables, ts2) <- from_tail (S (length ts1)) [t0] ts1;
+        do (joins, ts3) <- joins_loop (S (length ts2)) d (last tables t0) 0 [] ts2;
+        Val ((match t0 with GTable n _ _ _ => n end, tables, joins), ts3)
+    else Val ((""%string, [], []), ts).
+
+  Definition ps_where (d : nat) (ts : list token) : outcome (option gexpr * list token) :=
+    if isT (cur ts) TyWhere then
+      let ts := advance ts in
+      if isT (cur ts) TyEOF || isT (cur ts) TySemicolon || isT (cur ts) TyGroup || isT (cur ts) TyOrder
+         || isT (cur ts) TyLimit || isT (cur ts) TyHaving || is_setop (cur ts) || isT (cur ts) TyRParen
+         || isT (cur ts) TyFetch || isT (cur ts) TyFor then Err EExpected
+      else do (e, ts1) <- pe d ts; Val (Some e, ts1)
+    else Val (None, ts).
+
+  Definition ps_group (d : nat) (ts : list token) : outcome (list gexpr * list token) :=
+    if isT (cur ts) TyGroup then
+      let ts := advance ts in
+      if negb (isT (cur ts) TyBy) then Err EExpected
+      else
+        let ts := advance ts in
+        do (l, ts1) <- group_list (S (length ts)) d [] ts;
+        if isT (cur ts1) TyWith && (String.eqb (upper (lit (peek ts1))) "ROLLUP" || String.eqb (upper (lit (peek ts1))) "CUBE")
+        then Unmodelled else Val (l, ts1)
+    else Val ([], ts).
+
+  Definition ps_having (d : nat) (ts : list token) : outcome (option gexpr * list token) :=
+    if isT (cur ts) TyHaving then do (e, ts1) <- pe d (advance ts); Val (Some e, ts1) else Val (None, ts).
+
+  Definition ps_order (d : nat) (ts : list token) : outcome (list gorder * list token) :=
+    if isT (cur ts) TyOrder then
+      let ts := advance ts in
+      if negb (isT (cur ts) TyBy) then Err EExpected
+      else let ts := advance ts in order_list (S (length ts)) d [] ts
+    else Val ([], ts).
+
+  Definition ps_limit (ts : list token) : outcome (option Z * list token) :=
+    if isT (cur ts) TyLimit then
+      let ts := advance ts in
+      if negb (is_numeric_literal (cur ts)) then Err EExpected
+      else Val (Some (sscanf_d (lit (cur ts))), advance ts)
+    else Val (None, ts).
+
+  Definition ps_offset (ts : list token) : outcome (option Z * list token) :=
+    if isT (cur ts) TyOffset then
+      let ts := advance ts in
+      if negb (is_numeric_literal (cur ts)) then Err EExpected
+      else
+        let v := sscanf_d (lit (cur ts)) in
+        let ts := advance ts in
+        Val (Some v, if isT (cur ts) TyRow || isT (cur ts) TyRows then advance ts else ts)
+    else Val (None, ts).
+
   (* parseSelectStatement: the SELECT keyword is already consumed *)
   Definition parse_select (d0 : nat) (ts : list token) : sres gselect :=
     if md <? S d0 then Err EDepth
     else
       let d := S d0 in
-      do (dd, ts) <-
-        (if isT (cur ts) TyDistinct then
-           let ts := advance ts in
-           if isT (cur ts) TyOn then
-             let ts := advance ts in
-             if negb (isT (cur ts) TyLParen) then Err EExpected
-             else
-               let ts := advance ts in
-               do (l, ts1) <- expr_list (S (length ts)) d [] ts;
-               if negb (isT (cur ts1) TyRParen) then Err EExpected else Val ((true, l), advance ts1)
-           else Val ((true, []), ts)
-         else if isT (cur ts) TyAll then Val ((false, []), advance ts)
-         else Val ((false, []), ts));
-      let '(distinct, don) := dd in
+      do (dd, ts) <- ps_distinct d ts;
       if isT (cur ts) TyFrom then Err EExpected
       else
         do (cols, ts) <- select_items (S (length ts)) d [] ts;
         if negb (isT (cur ts) TyFrom) && negb (isT (cur ts) TyEOF) && negb (isT (cur ts) TySemicolon)
            && negb (isT (cur ts) TyRParen) && negb (is_setop (cur ts)) then Err EExpected
         else
-          do (fj, ts) <-
-            (if isT (cur ts) TyFrom then
-               let ts := advance ts in
-               if isT (cur ts) TyEOF || isT (cur ts) TySemicolon then Err EExpected
-               else
-                 do (t0, ts1) <- parse_from_table_ref ts;
-                 do (tables, ts2) <- from_tail (S (length ts1)) [t0] ts1;
-                 do (joins, ts3) <- joins_loop (S (length ts2)) d (last tables t0) 0 [] ts2;
-                 Val ((match t0 with GTable n _ _ _ => n end, tables, joins), ts3)
-             else Val ((""%string, [], []), ts));
-          let '(tname, tables, joins) := fj in
-          do (wh, ts) <-
-            (if isT (cur ts) TyWhere then
-               let ts := advance ts in
-               if isT (cur ts) TyEOF || isT (cur ts) TySemicolon || isT (cur ts) TyGroup || isT (cur ts) TyOrder
-                  || isT (cur ts) TyLimit || isT (cur ts) TyHaving || is_setop (cur ts) || isT (cur ts) TyRParen
-                  || isT (cur ts) TyFetch || isT (cur ts) TyFor then Err EExpected
-               else do (e, ts1) <- pe d ts; Val (Some e, ts1)
-             else Val (None, ts));
-          do (gb, ts) <-
-            (if isT (cur ts) TyGroup then
-               let ts := advance ts in
-               if negb (isT (cur ts) TyBy) then Err EExpected
-               else
-                 let ts := advance ts in
-                 do (l, ts1) <- group_list (S (length ts)) d [] ts;
-                 if isT (cur ts1) TyWith && (String.eqb (upper (lit (peek ts1))) "ROLLUP" || String.eqb (upper (lit (peek ts1))) "CUBE")
-                 then Unmodelled else Val (l, ts1)
-             else Val ([], ts));
-          do (hv, ts) <-
-            (if isT (cur ts) TyHaving then do (e, ts1) <- pe d (advance ts); Val (Some e, ts1) else Val (None, ts));
-          do (ob, ts) <-
-            (if isT (cur ts) TyOrder then
-               let ts := advance ts in
-               if negb (isT (cur ts) TyBy) then Err EExpected
-               else let ts := advance ts in order_list (S (length ts)) d [] ts
-             else Val ([], ts));
-          do (lim, ts) <-
-            (if isT (cur ts) TyLimit then
-               let ts := advance ts in
-               if negb (is_numeric_literal (cur ts)) then Err EExpected
-               else Val (Some (sscanf_d (lit (cur ts))), advance ts)
-             else Val (None, ts));
-          do (off, ts) <-
-            (if isT (cur ts) TyOffset then
-               let ts := advance ts in
-               if negb (is_numeric_literal (cur ts)) then Err EExpected
-               else
-                 let v := sscanf_d (lit (cur ts)) in
-                 let ts := advance ts in
-                 Val (Some v, if isT (cur ts) TyRow || isT (cur ts) TyRows then advance ts else ts)
-             else Val (None, ts));
+          do (fj, ts) <- ps_from d ts;
+          do (wh, ts) <- ps_where d ts;
+          do (gb, ts) <- ps_group d ts;
+          do (hv, ts) <- ps_having d ts;
+          do (ob, ts) <- ps_order d ts;
+          do (lim, ts) <- ps_limit ts;
+          do (off, ts) <- ps_offset ts;
           if isT (cur ts) TyFetch || isT (cur ts) TyFor then Unmodelled
-          else Val (GSelect None distinct don cols tables tname joins wh gb hv ob lim off None None, ts).
+          else Val (GSelect None (fst dd) (snd dd) cols (snd (fst fj)) (fst (fst fj)) (snd fj) wh gb hv ob lim off None None, ts).
 
   (* parseSelectWithSetOperations: the first SELECT keyword is already consumed *)
   Fixpoint setops_loop (n : nat) (d : nat) (left : gstmt) (ts : list token) : sres gstmt :=
